@@ -1,6 +1,6 @@
-// Package verifself holds harnesses that validate the engine itself
+// This file holds harnesses that validate the engine itself
 // (run by `gosym selftest`), not properties of gengo.
-package verifself
+package camelcase
 
 import (
 	"strings"
